@@ -114,9 +114,10 @@ class ListOf(Spec):
         self.elem = elem
 
     def make(self, it, name):
-        sort = {'bytes': SeqString, 'str': SeqString, 'box': SeqVal,
-                'int': z3.SeqSort(z3.IntSort())}[self.elem]
-        return it.ctx.alloc(SeqCell(it.ctx.fresh(name, sort), self.elem))
+        from .values import list_sort
+        from .lists import fresh_list
+        return it.ctx.alloc(SeqCell(
+            fresh_list(it.ctx, list_sort(self.elem), name), self.elem))
 
 
 class SymDict(Spec):
@@ -451,6 +452,7 @@ class Engine(object):
         ctx.frames.append(fr)
         self.cur_contract = c
         saved_ghost = getattr(ctx, 'ghost_env', {})
+        saved_olds = getattr(ctx, 'old_vals', {})
         try:
             ctx.ghost_env = {}
             if c.ghost:
@@ -484,6 +486,7 @@ class Engine(object):
             return res
         finally:
             ctx.ghost_env = saved_ghost
+            ctx.old_vals = saved_olds
             self.cur_contract = caller_contract
             ctx.frames.pop()
 
@@ -576,6 +579,11 @@ class Engine(object):
                 return 'raise:' + pr.exc.cls.__name__
             # normal exit: post-conditions
             env = {'result': result}
+            if getattr(c, 'exit_lemmas', None):
+                rc = ctx.heap.get(result.ref) if isinstance(result, VRef) \
+                    else result
+                for f in c.exit_lemmas(it, fr.locals, rc):
+                    ctx.assume(f)
             # parameters keep their entry names for the post-state
             for label, clause in c.ensures:
                 ctx.oblige('post.%s' % label,
@@ -621,21 +629,48 @@ class Engine(object):
 # discharge
 # ---------------------------------------------------------------------------
 def discharge(obligations, timeout_s=20, jobs=12, solvers=('z3', 'cvc5')):
-    """Runs the portfolio on every non-trivial obligation.  Canaries are
-    expected to be *not* unsat."""
-    items = []
+    """Runs the portfolio on every non-trivial obligation.  For each
+    obligation the relevance slices are tried first (short budget); the first
+    `unsat` discharges it.  `sat` is only believed on the full VC."""
+    todo = []
     for ob in obligations:
         if ob.kind == 'canary':
             continue
         if ob.trivially_true():
             ob.result = smt.Result(smt.UNSAT, 'simplifier', 0.0)
             continue
-        items.append((ob.id, ob.smt2()))
-    res = smt.solve_many(items, timeout_s=timeout_s, jobs=jobs,
-                         solvers=solvers)
-    for ob in obligations:
-        if ob.id in res and ob.result is None:
-            ob.result = res[ob.id]
+        todo.append(ob)
+
+    # SMT text is produced in this thread (the z3 API is not thread-safe);
+    # worker threads only drive solver child processes
+    pre = {}
+    for ob in todo:
+        pre[id(ob)] = ob.slices() if hasattr(ob, 'slices') else \
+            [('full', ob.smt2())]
+
+    def one(ob):
+        slices = pre[id(ob)]
+        t_used = 0.0
+        last = None
+        for name, text in slices:
+            full = (name == 'full')
+            budget = timeout_s if full else min(timeout_s, 6)
+            r = smt.solve_text(text, timeout_s=budget, solvers=solvers,
+                               want_model=full)
+            t_used += r.time_s
+            last = r
+            if r.status == smt.UNSAT:
+                r.time_s = t_used
+                r.solver = r.solver + ('' if full else '/' + name)
+                return ob, r
+            if full:
+                r.time_s = t_used
+                return ob, r
+        return ob, last
+    from concurrent.futures import ThreadPoolExecutor
+    with ThreadPoolExecutor(max_workers=jobs) as ex:
+        for ob, r in ex.map(one, todo):
+            ob.result = r
     return obligations
 
 
